@@ -1,10 +1,13 @@
 package main
 
 import (
+	"fmt"
 	"go/ast"
 	"go/token"
 	"go/types"
 	"strings"
+
+	"golang.org/x/tools/go/types/typeutil"
 )
 
 func init() {
@@ -12,7 +15,7 @@ func init() {
 		ID:    "C18",
 		Title: "Modules behave as textual inclusion with namespacing",
 		Decided: "narrowly, the structural skeleton of module compilation: compileModule brackets the module with scope.depth++ / a deferred depth-- that also truncates the variables the module declared, and for an aliased import a deferred pass prefixes `alias::` onto exactly the functions appended since entry — both deferred closures capture their lengths at registration, before the module's imports and definitions are compiled (R-C18-modscope); a module's own imports are compiled before its definitions (R-C18-order); " +
-			"an aliased import must compile the module's bodies with the importer's own names out of sight — today nothing restricts the lookup, which is a genuine defect recorded as a known finding (R-C18-isolation); a data import binds both `$d` and `$d::d` to the loaded value (R-C18-dataimport); modulemeta's `defs` are sorted by a total (name, arity) comparator and `deps` keep import order (R-C18-meta); ~/.jq auto-inclusion loads only regular files named .jq from the search list (R-C18-initmodules); no loader ⇒ an error, partial loaders ⇒ errors (R-C19-nilguard, R-C08-dispatch).",
+			"an aliased import compiles the module's bodies with the importer's own functions and imports out of sight: compileModule raises a floor on the scope's functions and variables, restores it on return, and every search through the open scopes stops at it (R-C18-isolation; the pinned tree had no such restriction, a genuine defect repaired by a fix: commit); a data import binds both `$d` and `$d::d` to the loaded value (R-C18-dataimport); modulemeta's `defs` are sorted by a total (name, arity) comparator and `deps` keep import order (R-C18-meta); ~/.jq auto-inclusion loads only regular files named .jq from the search list (R-C18-initmodules); no loader ⇒ an error, partial loaders ⇒ errors (R-C19-nilguard, R-C08-dispatch).",
 		NotCovered: "name visibility in general (run-time contents of the compiler's symbol tables per module tree); search order of lookupModule beyond the shape of its two candidates (R-C18-candidates checks that the second is Join(dir, name, Base(name)+ext) after the first, which the property states; the os.Stat probes themselves are not examined); resolution of relative `search` metadata; equality of include with textual insertion.",
 	})
 	reg(&Rule{ID: "R-C18-modscope", Props: []string{"C18"}, Floor: 3,
@@ -71,14 +74,45 @@ func ruleC18ModScope(c *Ctx, r *Rep) {
 			continue
 		}
 		body := c.Src(fl.Body)
-		// the captured length is a parameter of the literal whose argument is len(scope.X), evaluated when the defer is registered
-		capArg := ""
-		if len(d.Call.Args) == 1 {
-			capArg = c.Src(d.Call.Args[0])
+		// the captured length is the parameter of the literal that bounds a slice of scope.X in the body; its argument
+		// is len(scope.X), evaluated when the defer is registered
+		capOf := func(field string) string {
+			res := ""
+			ast.Inspect(fl.Body, func(q ast.Node) bool {
+				se, ok := q.(*ast.SliceExpr)
+				if !ok {
+					return true
+				}
+				sel, ok := ast.Unparen(se.X).(*ast.SelectorExpr)
+				if !ok || sel.Sel.Name != field {
+					return true
+				}
+				bound := se.Low
+				if bound == nil {
+					bound = se.High
+				}
+				id, ok := bound.(*ast.Ident)
+				if !ok {
+					return true
+				}
+				k := 0
+				for _, f := range fl.Type.Params.List {
+					for _, nm := range f.Names {
+						if info.Defs[nm] != nil && info.Defs[nm] == info.Uses[id] && k < len(d.Call.Args) {
+							res = c.Src(d.Call.Args[k])
+						}
+						k++
+					}
+				}
+				return true
+			})
+			return res
 		}
+		capArg := ""
 		early := d.Pos() < firstLoop
 		switch {
 		case strings.Contains(body, ".depth--") && strings.Contains(body, ".variables = ") && strings.Contains(body, ".variables[:"):
+			capArg = capOf("variables")
 			ok := early && capArg == "len(scope.variables)"
 			restore = restore || ok
 			r.Check(ok, "defer:restore", d.Pos(), "deferred closure lowers the depth again and truncates scope.variables to the length captured at registration (%q), registered before the compile loops: %v — variables a module declares must not outlive it", capArg, ok)
@@ -95,7 +129,8 @@ func ruleC18ModScope(c *Ctx, r *Rep) {
 				}
 				return true
 			})
-			ok := early && capArg == "len(scope.funcs)" && guarded && strings.Contains(body, ".funcs[l:]")
+			capArg = capOf("funcs")
+			ok := early && capArg == "len(scope.funcs)" && guarded
 			// every function the module added is renamed: the loop body is the assignment alone (a skip for names that
 			// already carry a prefix lets a module's own imports show through its alias)
 			uncond := false
@@ -176,27 +211,278 @@ func ruleC18Isolation(c *Ctx, r *Rep) {
 		}
 		return true
 	})
-	// accepted idiom 2: a scopeinfo field assigned here that the lookup functions read as a loop bound
-	bounded := false
-	for _, f := range fields {
-		n := 0
-		for _, lk := range []string{"compiler.lookupFuncOrVariable", "compiler.compileFunc"} {
-			if g := c.Decl(c.Gojq, lk); g != nil {
-				ast.Inspect(g.Body, func(m ast.Node) bool {
-					if fs, ok := m.(*ast.ForStmt); ok && fs.Cond != nil && strings.Contains(c.Src(fs.Cond), "."+f) {
+	// accepted idiom 2: compileModule raises two floors in the scope (a scopeinfo field set to len(scope.funcs), one
+	// set to len(scope.variables)) before compiling the module, restores them on return, and every search through
+	// the functions and variables of the open scopes respects them
+	if assignsScopes {
+		r.OK("compileModule:importer-names-visible", fd.Pos(), "compileModule restricts c.scopes while the module is compiled")
+		return
+	}
+	var firstLoop token.Pos
+	ast.Inspect(fd.Body, func(m ast.Node) bool {
+		if rs, ok := m.(*ast.RangeStmt); ok && !firstLoop.IsValid() {
+			if _, isLit := enclosingFuncLit(fd.Body, rs); !isLit {
+				firstLoop = rs.Pos()
+			}
+		}
+		return true
+	})
+	floorOf := map[string]string{} // "funcs"/"variables" -> field
+	var floorPos token.Pos
+	ast.Inspect(fd.Body, func(m ast.Node) bool {
+		as, ok := m.(*ast.AssignStmt)
+		if !ok || len(as.Lhs) != len(as.Rhs) {
+			return true
+		}
+		if _, isLit := enclosingFuncLit(fd.Body, as); isLit {
+			return true
+		}
+		for i, l := range as.Lhs {
+			f, ok := selectorOn(info, l, "scopeinfo")
+			if !ok {
+				continue
+			}
+			call, ok := ast.Unparen(as.Rhs[i]).(*ast.CallExpr)
+			if !ok || len(call.Args) != 1 || c.Src(call.Fun) != "len" {
+				continue
+			}
+			if g, ok := selectorOn(info, call.Args[0], "scopeinfo"); ok && (g == "funcs" || g == "variables") && as.Pos() < firstLoop {
+				floorOf[g] = f
+				floorPos = as.Pos()
+			}
+		}
+		return true
+	})
+	if floorOf["funcs"] == "" || floorOf["variables"] == "" {
+		r.Check(false, "compileModule:importer-names-visible", fd.Pos(),
+			"while an aliased import is compiled the importer's own functions are NOT hidden: compileModule compiles the module's definitions in the importer's symbol table, and lookupFuncOrVariable / compileFunc search every function of every open scope — `include \"m1\"; import \"m4\" as b; b::g` with m1.jq `def f: \"from m1\";` and m4.jq `def g: f;` yields \"from m1\" (jq: f/0 is not defined), and with m5.jq `def k: a::f;`, `import \"m1\" as a; import \"m5\" as c; c::k` resolves a sibling's alias inside m5 (floors found: %v)", floorOf)
+		return
+	}
+	r.OK("compileModule:importer-names-visible", floorPos, "before compiling an aliased module compileModule raises scope.%s to len(scope.funcs) and scope.%s to len(scope.variables): what the importer defined lies below the floors", floorOf["funcs"], floorOf["variables"])
+	// restored on return: a deferred literal assigns each floor from a parameter whose argument is the floor itself, read at registration
+	restored := map[string]bool{}
+	ast.Inspect(fd.Body, func(m ast.Node) bool {
+		d, ok := m.(*ast.DeferStmt)
+		if !ok {
+			return true
+		}
+		fl, ok := d.Call.Fun.(*ast.FuncLit)
+		if !ok || d.Pos() > floorPos {
+			return true
+		}
+		ast.Inspect(fl.Body, func(q ast.Node) bool {
+			as, ok := q.(*ast.AssignStmt)
+			if !ok || len(as.Lhs) != len(as.Rhs) {
+				return true
+			}
+			for i, l := range as.Lhs {
+				f, ok := selectorOn(info, l, "scopeinfo")
+				if !ok {
+					continue
+				}
+				id, ok := as.Rhs[i].(*ast.Ident)
+				if !ok {
+					continue
+				}
+				k := 0
+				for _, pf := range fl.Type.Params.List {
+					for _, nm := range pf.Names {
+						if info.Defs[nm] != nil && info.Defs[nm] == info.Uses[id] && k < len(d.Call.Args) {
+							if g, ok := selectorOn(info, d.Call.Args[k], "scopeinfo"); ok && g == f {
+								restored[f] = true
+							}
+						}
+						k++
+					}
+				}
+			}
+			return true
+		})
+		return true
+	})
+	for _, k := range []string{"funcs", "variables"} {
+		f := floorOf[k]
+		r.Check(restored[f], "compileModule:floor-restored:"+k, floorPos, "the floor scope.%s is put back on return to the value it had when the defer was registered (before it is raised): %v — a floor left raised hides the importer's earlier definitions from the rest of the importer", f, restored[f])
+	}
+	// every counted search through X.funcs[j] / X.variables[j] of an open scope
+	nf, nv := 0, 0
+	for _, g := range c.Decls(c.Gojq) {
+		if g.Body == nil {
+			continue
+		}
+		ast.Inspect(g.Body, func(m ast.Node) bool {
+			fs, ok := m.(*ast.ForStmt)
+			if !ok || fs.Cond == nil {
+				return true
+			}
+			which, idx, recv := "", "", ""
+			ast.Inspect(fs.Body, func(q ast.Node) bool {
+				if _, inner := q.(*ast.ForStmt); inner {
+					return false
+				}
+				ix, ok := q.(*ast.IndexExpr)
+				if !ok {
+					return true
+				}
+				if f, ok := selectorOn(info, ix.X, "scopeinfo"); ok && (f == "funcs" || f == "variables") {
+					which, idx = f, c.Src(ix.Index)
+					recv = c.Src(ix.X.(*ast.SelectorExpr).X)
+				}
+				return true
+			})
+			if which == "" {
+				return true
+			}
+			// the builtin scope holds no importer names
+			if scopeIsBuiltin(c, g, recv) {
+				return true
+			}
+			key := fmt.Sprintf("%s:%s[%s]", declKey(g), which, idx)
+			switch which {
+			case "funcs":
+				nf++
+				be, ok := ast.Unparen(fs.Cond).(*ast.BinaryExpr)
+				good := false
+				if ok {
+					if f, isSel := selectorOn(info, be.Y, "scopeinfo"); isSel && f == floorOf["funcs"] && be.Op == token.GEQ && c.Src(be.X) == idx {
+						good = true
+					}
+					if f, isSel := selectorOn(info, be.X, "scopeinfo"); isSel && f == floorOf["funcs"] && be.Op == token.LEQ && c.Src(be.Y) == idx {
+						good = true
+					}
+				}
+				r.Check(good, "floor:"+key, fs.Pos(), "the search through %s.funcs stops at the floor (condition `%s`): %v — a search that runs to 0 finds the importer's functions while a module is compiled", recv, c.Src(fs.Cond), good)
+			case "variables":
+				nv++
+				// the match `.name == …` is conjoined with a test of the floor on the same index, directly or through a
+				// function whose body compares its argument with the floor
+				good := false
+				ast.Inspect(fs.Body, func(q ast.Node) bool {
+					var cond ast.Expr
+					switch st := q.(type) {
+					case *ast.IfStmt:
+						cond = st.Cond
+					default:
+						return true
+					}
+					conj := splitAnd(cond)
+					hasName, hasFloor := false, false
+					for _, e := range conj {
+						src := c.Src(e)
+						if strings.Contains(src, ".name ==") {
+							hasName = true
+						}
+						if mentionsFloor(c, info, e, floorOf["variables"], idx) {
+							hasFloor = true
+						}
+					}
+					if hasName && hasFloor {
+						good = true
+					}
+					return true
+				})
+				r.Check(good, "floor:"+key, fs.Pos(), "the variable match in the search through %s.variables is conjoined with a test of the floor scope.%s on the same index: %v — without it a module reads the importer's `import … as $d` bindings", recv, floorOf["variables"], good)
+			}
+			return true
+		})
+	}
+	r.Check(nf >= 2 && nv >= 2, "floor:census", fd.Pos(), "searches through the open scopes: %d over funcs (reviewed: lookupFuncOrVariable, compileFunc), %d over variables (reviewed: lookupVariable, lookupFuncOrVariable)", nf, nv)
+}
+
+// splitAnd flattens a conjunction.
+func splitAnd(e ast.Expr) []ast.Expr {
+	e = ast.Unparen(e)
+	if be, ok := e.(*ast.BinaryExpr); ok && be.Op == token.LAND {
+		return append(splitAnd(be.X), splitAnd(be.Y)...)
+	}
+	return []ast.Expr{e}
+}
+
+// mentionsFloor: e compares idx with the floor field (idx >= X.floor, possibly in a disjunction admitting more), or
+// calls a function of the package with idx as an argument whose body compares that parameter with the floor.
+func mentionsFloor(c *Ctx, info *types.Info, e ast.Expr, floor, idx string) bool {
+	found := false
+	ast.Inspect(e, func(q ast.Node) bool {
+		switch x := q.(type) {
+		case *ast.BinaryExpr:
+			if f, ok := selectorOn(info, x.Y, "scopeinfo"); ok && f == floor && x.Op == token.GEQ && c.Src(x.X) == idx {
+				found = true
+			}
+		case *ast.CallExpr:
+			callee := typeutil.Callee(info, x)
+			fn, ok := callee.(*types.Func)
+			if !ok {
+				return true
+			}
+			k := -1
+			for i, a := range x.Args {
+				if c.Src(a) == idx {
+					k = i
+				}
+			}
+			if k < 0 {
+				return true
+			}
+			for _, g := range c.Decls(c.Gojq) {
+				if info.Defs[g.Name] != fn || g.Body == nil {
+					continue
+				}
+				pn, n := "", 0
+				for _, pf := range g.Type.Params.List {
+					for _, nm := range pf.Names {
+						if n == k {
+							pn = nm.Name
+						}
 						n++
+					}
+				}
+				ast.Inspect(g.Body, func(z ast.Node) bool {
+					if be, ok := z.(*ast.BinaryExpr); ok && be.Op == token.GEQ && c.Src(be.X) == pn {
+						if f, ok := selectorOn(info, be.Y, "scopeinfo"); ok && f == floor {
+							found = true
+						}
 					}
 					return true
 				})
 			}
 		}
-		if n >= 2 {
-			bounded = true
+		return true
+	})
+	return found
+}
+
+// scopeIsBuiltin: the scope variable recv of fd is initialised from the compiler's builtinScope field.
+func scopeIsBuiltin(c *Ctx, fd *ast.FuncDecl, recv string) bool {
+	is := false
+	ast.Inspect(fd.Body, func(q ast.Node) bool {
+		as, ok := q.(*ast.AssignStmt)
+		if !ok || len(as.Lhs) != 1 || len(as.Rhs) != 1 {
+			return true
 		}
-	}
-	r.Check(assignsScopes || bounded, "compileModule:importer-names-visible", fd.Pos(),
-		"while an aliased import is compiled the importer's own functions are %s",
-		map[bool]string{true: "hidden from the lookups", false: "NOT hidden: compileModule compiles the module's definitions in the importer's symbol table, and lookupFuncOrVariable / compileFunc search every function of every open scope — `include \"m1\"; import \"m4\" as b; b::g` with m1.jq `def f: \"from m1\";` and m4.jq `def g: f;` yields \"from m1\" (jq: f/0 is not defined), and with m5.jq `def k: a::f;`, `import \"m1\" as a; import \"m5\" as c; c::k` resolves a sibling's alias inside m5"}[assignsScopes || bounded])
+		if c.Src(as.Lhs[0]) == recv {
+			if f, ok := selectorOn(c.Gojq.TypesInfo, as.Rhs[0], "compiler"); ok && f == "builtinScope" {
+				is = true
+			}
+		}
+		return true
+	})
+	return is
+}
+
+// enclosingFuncLit reports whether n lies inside a function literal below root.
+func enclosingFuncLit(root ast.Node, n ast.Node) (*ast.FuncLit, bool) {
+	var res *ast.FuncLit
+	walkStack(root, func(m ast.Node, stack []ast.Node) bool {
+		if m == n {
+			for _, a := range stack {
+				if fl, ok := a.(*ast.FuncLit); ok {
+					res = fl
+				}
+			}
+		}
+		return true
+	})
+	return res, res != nil
 }
 
 func ruleC18DataImport(c *Ctx, r *Rep) {
